@@ -19,6 +19,9 @@ Definition load_error (e : exn) : bool := match e with ERecognition | EYaml => t
 Definition outcome_eqb (a b : result value) : bool :=
   match a, b with
   | Ok x, Ok y => value_eqb x y
+  | Err (EPy _), Err (EPy _) => true     (* crashes caused by a hook misusing the Node API: only "some Python exception"
+                                            is compared, as in OpsRun.oret_eqb (which builtin exception a later unpacking of a
+                                            mangled node raises is CPython detail) *)
   | Err e, Err e' => exn_eqb e e' || (load_error e && load_error e')
   | _, _ => false
   end.
